@@ -64,7 +64,8 @@ def gen_pda(rng, max_states=3, max_stack=3, max_trans=6, reserved=True, int_inpu
     return {"states": states, "stack": stack, "inputs": inputs, "trans": trans, "start": states[0],
             "z0": stack[0], "finals": finals, "hash": assign_hashes(rng, sorted(names), mode), "hashmode": mode,
             "ctor_tf": rng.chance(0.15), "ctor_eps": rng.pick([None, None, None, "str", "obj"]), "bulk": rng.chance(0.15),
-            "inmode": rng.pick(["int", "int", "allint"]) if int_inputs and rng.chance(0.25) else "str"}
+            "inmode": rng.pick(["int", "int", "allint"]) if int_inputs and rng.chance(0.25) else "str",
+            "no_start": rng.chance(0.02)}
 
 
 def sv(case, s):
@@ -85,6 +86,8 @@ def iv(case, a):
 
 
 def ref_of(case):
+    if case.get("no_start"):
+        return Pda([], [], [], None, None, [])      # PDA(): no start configuration (what an empty intersection returns)
     S = lambda x: _k(sv(case, x))
     Gm = lambda x: _k(gv(case, x))
     return Pda([S(x) for x in case["states"]], [Gm(x) for x in case["stack"]],
@@ -107,6 +110,8 @@ def _ctor_inputs(case):
 
 def build(case):
     from pyformlang.pda import PDA
+    if case.get("no_start"):
+        return PDA()
     if case.get("ctor_tf"):
         # a ready-made transition function filled with its own State / Symbol / StackSymbol objects (equal to, but
         # not the same objects as, the members of the declared sets)
@@ -229,6 +234,8 @@ def shrink_pda(case):
         yield mk(ctor_eps=None)
     if case.get("bulk"):
         yield mk(bulk=False)
+    if case.get("no_start"):
+        yield mk(no_start=False)
     if case.get("inmode") == "allint":
         yield mk(inmode="int")
     if case.get("inmode") == "int":
